@@ -75,6 +75,11 @@ class C10(core.Prop):
                                 case = pl.make_case(smi, cut, comps, OPT_VARIANTS[oi])
                                 case['shared'] = [[ci, e] for ci, e in zip(subset, ends)]
                                 out.append(case)
+        # the other constructors / drivers (pipeline.VARIANTS); not the variants that build the base graph in another order:
+        # which copy of a shared atom survives follows the insertion order of the coarse nodes (DESIGN 8.8)
+        vs = [k for k, v in enumerate(pl.VARIANTS) if k and not str(v.get('entry', '')).startswith('graph')]
+        for i, case in enumerate(list(out)[::(5 if q else 7)]):
+            out.append(dict(case, variant=vs[i % len(vs)]))
         for i in range(len(COARSE)):
             for ll in (0, 1):
                 if ll == 0 and '@m' in COARSE[i][0]:
@@ -98,6 +103,8 @@ class C10(core.Prop):
             aa = COARSE[shape['idx']][0].count('}.{') == 2
             return [core.guard(pl.run_resolver, M, inp['text'], last_all_atom=aa, how='all'),
                     core.guard(pl.run_resolver, M, inp['disjoint'], last_all_atom=aa, how='all')]
+        if shape.get('variant'):
+            return core.guard(pl.run_variant, M, inp['text'], pl.VARIANTS[shape['variant']])
         return core.guard(pl.run_resolver, M, inp['text'])
 
     def _oracle_coarse(self, shape, inp, obs):
